@@ -1,6 +1,6 @@
 #!/bin/bash
 # tools/thorough_all.sh [ids...] : run the thorough tier of every (or the given) property check in turn; summary lines on stdout
-cd /verif
+cd "$(dirname "$(readlink -f "$0")")/.."
 IDS=${@:-C01 C02 C03 C04 C05 C06 C07 C08 C09 C10 C11 C12 C13 C14 C15 C16}
 for id in $IDS; do
   s=$(date +%s)
